@@ -19,18 +19,20 @@ What is PROVED here (each for all histories / schedules, no size bound), and abo
 5. node tracers (`Uniflow.Tracer` / `Uniflow.ATracer`, pkg/packet/tracer.go): after any
    protocol-conforming call history, once the node's loops for a process have ended nothing in the seven
    maps mentions the process; the variant of seeded change c05c keeps a `reader` entry.
-                                   `C05.tracer_no_residue`, `C05.tracer_empty_single_process`, `C05.tracer_c05c_residue`
+                                   `C05.tracer_no_residue_after_drops`, `C05.tracer_no_residue`, `C05.tracer_drop_detaches`,
+                                   `C05.tracer_empty_single_process`, `C05.tracer_c05c_residue`
    ASSUMED about the node loops at process exit (pkg/node/onetoone.go, onetomany.go, manytoone.go; the
    node model `Uniflow.Node` has no loop-end steps, so this is a hypothesis of the theorem, not a lemma):
      * `Settled`: each forward loop has left its last iteration – every packet derived from a request
        it read has been passed to `Tracer.Write` (accepted by a writer of the process, or echoed);
      * at the end of the forward loop (`Drop(outWriter)`, `Drop(errWriter)`) and of each backward loop
        (`Drop(outWriter)` after `range outWriter.Receive()`), `Tracer.Drop(w)` has run for every writer
-       `w` of the process after the last accepted `Write` on it. In the call history a `Drop(w)` is
-       written as the `Receive(w, dropped)` calls it stands for (one per pending packet, the same
-       `receive; resolve` per packet: `C02.drop_answers_pending`, and `C05.tracer_no_residue_nonvacuous`
-       on a concrete flight); that `Drop` always removes the key `w` is the unproved
-       `C05.tracer_drop_detaches_full`.
+       `w` of the process after the last accepted `Write` on it.
+       `C05.tracer_no_residue_after_drops` takes those `Drop` calls literally (`dropW`, any order, any
+       superset of the process's writers) after an arbitrary protocol history; `C05.tracer_no_residue` is
+       the older form in which a `Drop(w)` is written as the `Receive(w, dropped)` calls it stands for and
+       its effect on `writes` is a hypothesis (discharged by `C05.tracer_drop_detaches`, proved for every
+       tracer state). The two are connected by `drop_refines` / `resolve_setW` in Proofs/TracerExit.lean.
    That the real loops do end (readers / writers get closed at exit) is C03's teardown.
 
 What stays OBSERVED by the harness (harness/c05/flow.go, after a settle loop, on real workflows): that
@@ -771,13 +773,52 @@ theorem C05.tracer_empty_single_process (cs : List Call) (hp : Protocol {} cs)
     eq_nil_of_aget _ (fun w => by rw [← hrel.writes w]; exact hdrop w)
   exact quiescent_empty_general cs hp hq hw
 
-/-- `Tracer.Drop(w)` removes the key `w` from `writes` whatever else it does (`delete(t.writes,
-writer)` comes first and neither `receive` nor `resolve` writes to `writes`). Full statement, NOT
-proved in general (it needs a frame lemma through the fuel recursion of `resolve`); it is checked on
-the concrete flight below and the harness observes `len(writes) = 0` after every aborted flight. -/
+open Uniflow.Tracer Uniflow.ATracer in
+/-- **Tracer: no residue, with the real `Drop` calls.** ANY protocol-conforming history `cs` of
+`Read` / `Link` / `Write` / `Receive` calls, followed by the loop-end calls themselves –
+`Tracer.Drop(w)` (`dropW`, the model of the Go method, not a stand-in) for every writer in `ws`, in any
+order, `ws` containing at least the writers of process `p`. If the requests read on `p`'s readers
+were settled when the loops ended, the tracer that results mentions `p` nowhere: no `reads` key
+among its readers, no `writes` key among its writers, no `reader` entry naming one of its readers;
+`hooks` is empty, the tracer did not panic (`resolve` never ran out of fuel, the slot search never
+indexed out of range – also inside `Drop`), and the state is still the image (`TRel`) of an abstract
+state without any request of `p` (so every packet-keyed entry belongs to a request of another
+process still in flight). This removes the caveat of `C05.tracer_no_residue` that a `Drop` had to be
+written as the `Receive(w, dropped)` calls it stands for: `drop_refines` (Proofs/TracerExit.lean)
+proves that `Drop(w)` IS that, from the frame lemma `resolve_setW`. -/
+theorem C05.tracer_no_residue_after_drops (cs : List Call) (hp : Protocol {} cs) (Rp : Rid → Bool)
+    (Wp : Wid → Bool) (ws : List Wid)
+    (hset : Settled Rp Wp (arun {} cs).1) (hws : ∀ w, Wp w = true → w ∈ ws) :
+    (∀ r, Rp r = true → aget (dropAll ws (trun {} cs).1).reads r = none) ∧
+    (∀ w, Wp w = true → aget (dropAll ws (trun {} cs).1).writes w = none) ∧
+    (∀ k r, aget (dropAll ws (trun {} cs).1).reader k = some r → Rp r = false) ∧
+    (dropAll ws (trun {} cs).1).hooks = [] ∧ (dropAll ws (trun {} cs).1).panic = false ∧
+    ∃ a', TRel a' (dropAll ws (trun {} cs).1) ∧ (∀ x ∈ a'.reqs, Rp x.r = false) := by
+  obtain ⟨_, hrel, hinv⟩ := run_refines cs {} {} trel_init inv_init hp
+  obtain ⟨hf, hc⟩ := hf_hc_run cs {} {} trel_init inv_init hf_init hc_init hp
+  obtain ⟨a', k1, _, k3, k4, k5, k6⟩ :=
+    dropAll_refines Rp Wp ws _ _ hrel hinv hf hc hset [] (fun w hw => by simp at hw)
+  obtain ⟨r1, r2, r3, _, r5, r6⟩ :=
+    residue_free_of_rel a' _ Rp Wp k1 k3 k4 k5 (fun w hw => k6 w (Or.inr (hws w hw)))
+  exact ⟨r2, fun w hw => dropAll_writes_none ws w (hws w hw) _, r3, r5, r6, a', k1, r1⟩
+
+/-- `Tracer.Drop(w)` removes the key `w` from `writes`, for EVERY tracer state and writer (no
+well-formedness is needed): `delete(t.writes, writer)` comes first and neither `receive` nor `resolve`
+– at any fuel level, through the `foldl` over the sources, `fillSource` and the reader loop `flush` –
+writes the `writes` map (`resolve_writes`, `dropLoop_writes` in Proofs/TracerExit.lean). -/
 def C05.tracer_drop_detaches_full : Prop :=
   ∀ (t : Uniflow.Tracer.T) (w : Uniflow.Tracer.Wid),
     Uniflow.Tracer.aget (Uniflow.Tracer.dropW true t w).1.writes w = none
+
+theorem C05.tracer_drop_detaches : C05.tracer_drop_detaches_full :=
+  fun t w => Uniflow.Tracer.dropW_detaches true t w
+
+/-- `Drop(w)` leaves the queue of every other writer exactly as it was (so the loop-end drops of one
+process do not disturb the writers of another), and so does `Receive` on another writer. -/
+theorem C05.tracer_drop_frame (t : Uniflow.Tracer.T) (w w' : Uniflow.Tracer.Wid) (h : w' ≠ w) :
+    Uniflow.Tracer.aget (Uniflow.Tracer.dropW true t w).1.writes w' = Uniflow.Tracer.aget t.writes w' ∧
+    ∀ a, Uniflow.Tracer.aget (Uniflow.Tracer.receiveW true t w a).1.writes w' = Uniflow.Tracer.aget t.writes w' :=
+  ⟨Uniflow.Tracer.dropW_other true t w w' h, fun a => Uniflow.Tracer.receiveW_writes_other true t w w' a h⟩
 
 namespace C05tracer
 open Uniflow.Tracer Uniflow.ATracer
@@ -806,6 +847,16 @@ theorem C05.tracer_no_residue_nonvacuous :
     isEmpty (trun {} (flight ++ drops)).1 = true ∧
     isEmpty (dropW true (trun {} flight).1 1).1 = true ∧
     aget (dropW true (trun {} flight).1 1).1.writes 1 = none := by decide
+
+open Uniflow.Tracer Uniflow.ATracer C05tracer in
+/-- Non-vacuity of `C05.tracer_no_residue_after_drops` and of `C05.tracer_drop_detaches`: on the
+aborted flight (two packets pending on writer 1) the real `Drop(1)` empties all seven maps and
+removes the key; a second `Drop(1)` and a `Drop` of a writer nothing is pending on change nothing. -/
+theorem C05.tracer_drop_nonvacuous :
+    protoB {} flight = true ∧ getL (trun {} flight).1.writes 1 = [11, 12] ∧
+    isEmpty (dropAll [1] (trun {} flight).1) = true ∧ isEmpty (dropAll [2, 1, 1] (trun {} flight).1) = true ∧
+    aget (dropW true (trun {} flight).1 1).1.writes 1 = none ∧
+    (dropW true (trun {} flight).1 2).1.writes = (trun {} flight).1.writes := by decide
 
 open Uniflow.Tracer in
 /-- **The c05c situation** as a counter-example of the variant tracer (`Uniflow.TracerC05c`: the reader
